@@ -37,11 +37,11 @@ CPUS = {"amoco.arch.x86.cpu_x86": False, "amoco.arch.x64.cpu_x64": True}
 def prefixes(mode64, tier):
     p = [b"", b"\x66"]
     if mode64:
-        p += [b"\x48"]
+        p += [b"\x49"]
     if tier != "quick":
         p += [b"\x67", b"\xf3", b"\x2e"]
         if mode64:
-            p += [b"\x41", b"\x66\x48", b"\x4c"]
+            p += [b"\x48", b"\x41", b"\x66\x48", b"\x4c"]
         else:
             p += [b"\x66\x67"]
     return p
@@ -138,6 +138,25 @@ def check_spec(cpu, mode64, spec, pfx, n, tier, res):
                 got = symx.zterm(v, size) if isinstance(v, symx.SInt) else z3.BitVecVal(v & ((1 << size) - 1), size)
                 E2.prove(got == want, "displacement of the relative branch differs from the encoded rel%d" % rb)
             return ("ok", ref.length, None)
+        # selector fields realized under the cap (2 of their values were followed): every other value of such a field
+        # is tried concretely - amoco's length against the reference decoder's on the same bytes, the tools judge
+        w0 = decx.model_bytes(list(p.pc), n)
+        if w0 is not None:
+            for w2 in decx.siblings(p, w0, limit=40):
+                res["capped_field_siblings"] = res.get("capped_field_siblings", 0) + 1
+                full = pfx + w2
+                ci = decx.concrete_decode(cpu, {}, full + b"\x90" * 2)
+                if ci is None or isinstance(ci, tuple):
+                    continue
+                rr = RL.ref_decode(list(full + b"\x90" * 2), mode64)
+                if rr.status == "ok" and rr.length != len(ci.bytes):
+                    v = verdict_on(cpu, mode64, full)
+                    if v[0] == "violation":
+                        res["violations"].append({"key": "%s:%s:length:%s" % (cpu.rsplit(".", 1)[1], ci.mnemonic, pfx.hex() or "noprefix"),
+                                                  "desc": "length: amoco %d, reference %d | %s bytes=%s | %s" % (len(ci.bytes), rr.length, label, full.hex(), v[1]),
+                                                  "replay": {"cpu": cpu, "bytes": full.hex()}, "reproduced": True})
+                    elif v[0] == "agree":
+                        res["reference_model_mismatches"] += 1
         E2 = symx.Engine(timeout_ms=15000, caps=dict(index=2, format=4, str=4, hash=6), max_decisions=2000)
         sub = E2.explore(fn2, max_paths=200, deadline=time.time() + 30)
         res["reference_subpaths"] += len(sub)
@@ -236,7 +255,7 @@ def coverage(agg, tier):
         "witnesses_outside_the_statement": {"reference says outside": agg.get("outside_reference", 0), "tools disagree or reject": agg.get("tools_disagree_or_reject", 0), "amoco does not decode": agg.get("undecoded_by_amoco", 0)},
         "reference_tools": {"objdump": TOOLS.OBJDUMP, "llvm-mc": TOOLS.LLVMMC},
         "rule": "state = one path of cpu.disassemble for a focused spec behind a prefix; obligation = on one sub-path of the reference decoder under that path condition: reference length == amoco length (and displacement equality for relative branches), for all bytes of the sub-path; traces validated = proven sub-path witnesses on which amoco, objdump and llvm-mc agree",
-        "bounds": {"specs": "quick: 1/40 of the shipped x86 and x64 specs (seeded), thorough: all", "prefixes": "quick: none, 66, REX.W; thorough: + 67, F3, 2E, REX.B, 66+REX.W, REX.WR, 66+67",
+        "bounds": {"specs": "quick: 1/40 of the shipped x86 and x64 specs (seeded), thorough: all", "prefixes": "quick: none, 66, REX.WB; thorough: + 67, F3, 2E, REX.W, REX.B, 66+REX.W, REX.WR, 66+67",
                    "window": "14 bytes including the prefix", "paths": "quick <= 600 decode paths and 40 s per focus, 30 s per reference exploration; thorough <= 4000 / 300 s",
                    "outside": "see assumptions; paths beyond the caps (counted as incomplete)"},
         "stubs": symx.STUBS,
